@@ -1,4 +1,5 @@
 import LoguruModel.Rotation.Lemmas
+import LoguruModel.Rotation.CalendarFact
 /-
 C07 – property theorems: time-based rotation starts a new file exactly at the boundaries the
 specification denotes.  Everything is stated about the model of `Rotation.RotationTime` whose
@@ -10,15 +11,20 @@ open Py Rotation Rotation.Gen
 /-- every meaning except monthly/yearly satisfies the two step obligations outright -/
 theorem step_obligations (F : Form) (hv : F.Valid) (hp : F.Plain) : StepOK F := stepOK_plain F hv hp
 
-/-- FULL statement for monthly / yearly (kept visible): the two step obligations hold outright -/
-def step_obligations_calendar_statement : Prop := StepOK Form.monthly ∧ StepOK Form.yearly
+/-- monthly / yearly satisfy the two step obligations outright as well.  The calendar fact they rest on – the civil
+date `civilOfDays z` names the month that contains day `z` – is PROVED for every day number in `Py/CalendarFacts.lean`
+(era decomposition and month arithmetic by `omega`, the 146 097 days of one 400-year era by kernel evaluation);
+it used to be an explicit hypothesis of this theorem. -/
+theorem step_obligations_calendar : StepOK Form.monthly ∧ StepOK Form.yearly :=
+  stepOK_calendar calendarMonthFact
 
-/-- proved part for monthly / yearly: the obligations follow from one explicit fact about
-`Py/Calendar` (`CalendarMonthFact`: `civilOfDays z` names the month that contains day `z`); that
-month starts increase strictly (`monthStart_lt_succ`) IS proved.  The fact itself is validated for
-every day of years 1..9999 against `datetime.date` by the correspondence run, not by the kernel. -/
-theorem step_obligations_calendar_partial (hcal : CalendarMonthFact) : step_obligations_calendar_statement :=
-  stepOK_calendar hcal
+/-- every meaning a time-based `rotation=` can have satisfies the step obligations -/
+theorem step_obligations_all (F : Form) (hv : F.Valid) : StepOK F := by
+  by_cases hp : F.Plain
+  · exact stepOK_plain F hv hp
+  · cases F <;> simp [Form.Plain] at hp
+    · exact step_obligations_calendar.1
+    · exact step_obligations_calendar.2
 
 /-- month starts are strictly increasing, for all month numbers (no calendar assumption) -/
 theorem month_starts_increase (i : Int) : monthStart i < monthStart (i + 1) := monthStart_lt_succ i
